@@ -115,6 +115,7 @@ type Case struct {
 	// cs
 	Strict bool     `json:"strict"`
 	Tol    int64    `json:"tol"`
+	TolMs  int64    `json:"tolms"` // extra milliseconds in the Expiry (the handler counts whole seconds)
 	Keys   []string `json:"keys"` // configured fingerprints (subset of A, B)
 	// cs + crypt
 	Req   CSReq `json:"req"`
@@ -174,6 +175,9 @@ type SGroup struct {
 type SReq struct {
 	J  *JReq `json:"j"`
 	CS CSReq `json:"cs"`
+	// send, verbatim, the X-Content-Security header of the earlier request with this index (same
+	// secret ciphertext, timestamp and signature) with THIS request's method / path / query / body
+	Reuse *int `json:"reuse"`
 }
 
 type Group struct {
@@ -527,7 +531,7 @@ func classify(hdr string, present bool, secret, prev string, all ...string) JVie
 	// TimePrecision = 1 s); computed here with strconv/math, not with the jwt library
 	for _, k := range []string{"exp", "iat", "nbf"} {
 		if n, ok := claims[k].(json.Number); ok {
-			if f, err := strconv.ParseFloat(string(n), 64); err == nil && math.Abs(f) < 1e15 {
+			if f, err := strconv.ParseFloat(string(n), 64); err == nil && math.Abs(f) < 9e18 {
 				if v.TimeVal == nil {
 					v.TimeVal = map[string]string{}
 				}
@@ -1164,7 +1168,7 @@ func buildEngine(c Case, route http.HandlerFunc, o *CSObs) http.Handler {
 		}
 		if g.Sig {
 			ropts = append(ropts, rest.WithSignature(rest.SignatureConf{Strict: c.Strict,
-				Expiry: time.Duration(c.Tol) * time.Second, PrivateKeys: keys}))
+				Expiry: time.Duration(c.Tol)*time.Second + time.Duration(c.TolMs)*time.Millisecond, PrivateKeys: keys}))
 		}
 		if g.Prefix != "" {
 			ropts = append(ropts, rest.WithPrefix(g.Prefix))
@@ -1299,6 +1303,41 @@ func buildSrv(c Case, cur *srvCur, so *SrvObs) http.Handler {
 	return rt
 }
 
+// reuseHeader: request [b] (its own method, path, query, body) sent with the header of the earlier
+// request [prev]; the view is what the harness knows about that combination (both are plaintext requests).
+func reuseHeader(b, prev built, q CSReq, now int64) built {
+	b.header, b.hasHdr = prev.header, prev.hasHdr
+	v, pv := b.view, prev.view
+	v.Now = now
+	v.HasFp, v.HasSecret, v.HasSig = pv.HasFp, pv.HasSecret, pv.HasSig
+	v.Sig, v.SecretCt, v.DecKeys = pv.Sig, pv.SecretCt, pv.DecKeys
+	v.KeyOk, v.Key, v.TsStr, v.TsVal, v.CType, v.AesOk = pv.KeyOk, pv.Key, pv.TsStr, pv.TsVal, pv.CType, pv.AesOk
+	key, _ := hex.DecodeString(pv.Key)
+	v.TagUrl = hmacB64(key, strings.Join([]string{pv.TsStr, q.Method, q.Path, q.Query, v.Digest}, "\n"))
+	v.DTab, v.ETab = map[string]string{}, map[string]string{}
+	if blk, err := aes.NewCipher(key); err == nil {
+		for _, msg := range [][]byte{latin(q.Resp), latin(q.Body)} {
+			rp := ownPad(msg)
+			for i := 0; i+16 <= len(rp); i += 16 {
+				out := make([]byte, 16)
+				blk.Encrypt(out, rp[i:i+16])
+				v.ETab[hex.EncodeToString(rp[i:i+16])] = hex.EncodeToString(out)
+				v.DTab[hex.EncodeToString(out)] = hex.EncodeToString(rp[i : i+16])
+			}
+		}
+		if v.B64 != nil {
+			dec, _ := hex.DecodeString(*v.B64)
+			for i := 0; i+16 <= len(dec); i += 16 {
+				out := make([]byte, 16)
+				blk.Decrypt(out, dec[i:i+16])
+				v.DTab[hex.EncodeToString(dec[i:i+16])] = hex.EncodeToString(out)
+			}
+		}
+	}
+	b.view = v
+	return b
+}
+
 func runSrv(c Case) *SrvObs {
 	so := &SrvObs{}
 	cur := &srvCur{}
@@ -1314,6 +1353,7 @@ func runSrv(c Case) *SrvObs {
 	// a first observation slot for anything that happens while binding
 	cur.o, cur.q = &SReqObs{}, &CSReq{}
 	h := buildSrv(c, cur, so)
+	var builts []built
 	for i := range c.SReqs {
 		sq := c.SReqs[i]
 		o := SReqObs{UErr: 0, UsCode: -1}
@@ -1327,6 +1367,10 @@ func runSrv(c Case) *SrvObs {
 		}
 		n0 := time.Now().Unix()
 		b := buildCSReq(sq.CS, nil, n0)
+		if sq.Reuse != nil && *sq.Reuse < len(builts) {
+			b = reuseHeader(b, builts[*sq.Reuse], sq.CS, n0)
+		}
+		builts = append(builts, b)
 		r := b.requestFor(sq.CS)
 		if sq.J != nil {
 			jq := *sq.J
@@ -1379,7 +1423,7 @@ func runCS(c Case) *CSObs {
 	if limit == 0 {
 		limit = 1 << 20
 	}
-	tol := time.Duration(c.Tol) * time.Second
+	tol := time.Duration(c.Tol)*time.Second + time.Duration(c.TolMs)*time.Millisecond
 	ranp := &o.Ran
 	hijackOdd := false
 	route := http.HandlerFunc(func(w http.ResponseWriter, r *http.Request) {
